@@ -21,31 +21,31 @@ PENDING = {
 }
 CHECKS = {
 "C06": dict(cat="exploration", ref="DESIGN.md section 7, C06",
-  text="Seeded histories of up to 12 chains over a tree of reusable handles (Open, Session, WithContext, Debug, Begin, chain.Session), steps of different chains interleaved by a schedule vector, chain methods (including other handles passed as sub-queries and group conditions) drawn swarm-style from a small per-history palette so that several chains touch the same clause of the same handle; every executed finisher (DryRun: Statement SQL+Vars; real: driver statements, bound values, rows, error) must equal the same chain replayed alone - only its own ancestry - on a fresh Open. Seeded sampling of histories.",
+  text="Seeded histories of up to 12 chains over a tree of reusable handles (Open, Session, WithContext, Debug, Begin, chain.Session), steps of different chains interleaved by a schedule vector, chain methods (including other handles passed as sub-queries and group conditions) drawn swarm-style from a small per-history palette so that several chains touch the same clause of the same handle; every executed finisher (DryRun: Statement SQL+Vars; real: driver statements, bound values, rows, error) must equal the same chain replayed alone - only its own ancestry - on a fresh Open. Seeded sampling of histories. Handles may carry Session{CreateBatchSize}; a slice create runs straight on the handle in DryRun histories.",
   note="Trusted: a single chain is deterministic (the isolated replay is run twice and must agree with itself); intermediate chain values are used linearly; write finishers in real-mode histories go through a DryRun session.",
   tech="deterministic simulation: seeded interleaving of logical clients over a handle tree with isolation-replay oracle"),
 "C14": dict(cat="exploration", ref="DESIGN.md section 7, C14",
-  text="2..4 client tasks plus the closer goroutines gorm starts itself run 4 shared statement texts (query/exec, direct or in Begin..Commit/Rollback, one writer), Reset and Close through Config.PrepareStmt or Session{PrepareStmt:true} handles under the seeded scheduler, with planned Prepare failures and ErrBadConn bursts (thorough: simulated pool bound 1/2). Per run: no deadlock (all-waiting detection), every use returns the non-prepared rows / the injected fault / a closed-cache error explained by a Close (porcupine against an open/closed model), at most one pool-bound Prepare per text and cache generation, failed preparations not cached, every driver statement closed after the final Close, committed writer rows present; race-build runs add the race detector's verdict. Seeded sampling of schedules and fault plans.",
+  text="2..4 client tasks plus the closer goroutines gorm starts itself run 4 shared statement texts (query/exec, direct or in Begin..Commit/Rollback, one writer), Reset and Close through Config.PrepareStmt or Session{PrepareStmt:true} handles under the seeded scheduler, with planned Prepare failures and ErrBadConn bursts (thorough: simulated pool bound 1/2). Per run: no deadlock (all-waiting detection), every use returns the non-prepared rows / the injected fault / a closed-cache error explained by a Close (porcupine against an open/closed model), at most one pool-bound Prepare per text and cache generation, failed preparations not cached, every driver statement closed after the final Close, committed writer rows present; race-build runs add the race detector's verdict. Seeded sampling of schedules and fault plans. A task that waited for another task's failing preparation must return that preparation's error; the end-of-run Close must return.",
   note="Trusted: no parking inside database/sql (prepared executions interleave at whole-call granularity); `go stmt.Close()` goroutines of the ErrBadConn branches run outside the scheduler; the generation rule exempts transaction-bound preparations requested before a pool-bound entry existed and everything after a Close.",
   tech="deterministic simulation: seeded baton scheduler over Prepare/Exec/Reset/Close with fault injection, porcupine history check, driver-level leak accounting, race detector"),
 "C07": dict(cat="exploration", ref="DESIGN.md section 7, C07",
-  text="2..32 tasks share one *gorm.DB and run seeded programs (Create with nested associations, Find/First, Preload, Joins, Update(s), Delete, Transaction, Association calls) on disjoint rows, schema cache cold or warm, PrepareStmt on/off; a seeded scheduler (one runnable goroutine at a time, futex hand-off invisible to the race detector) decides every interleaving at pool calls, hooks, naming-strategy calls inside schema parsing and the simhook sites in gorm. Per run: every task's results and the final rows equal the serial run, no deadlock, no panic; race-build runs add: no race report with an access in gorm code (known racing pairs are listed individually). Seeded sampling of schedules, not enumeration.",
+  text="2..32 tasks share one *gorm.DB and run seeded programs (Create with nested associations, Find/First, Preload, Joins, Update(s), Delete, Transaction, Association calls) on disjoint rows, schema cache cold or warm, PrepareStmt on/off; a seeded scheduler (one runnable goroutine at a time, futex hand-off invisible to the race detector) decides every interleaving at pool calls, hooks, naming-strategy calls inside schema parsing and the simhook sites in gorm. Per run: every task's results and the final rows equal the serial run, no deadlock, no panic; race-build runs add: no race report with an access in gorm code (known racing pairs are listed individually). Seeded sampling of schedules, not enumeration. Tasks also build statements from shared handles that carry conditions and an order (Count called on them directly), or a setting; a club scenario runs nested preloads while another task makes first use of a model that has many of the preloaded one; a goroutine that sits on a real lock when the run stalls is a deadlock only if it still does after every task was released to run freely.",
   note="Trusted: the write-token serialisation of write transactions (SQLite single writer); no parking inside database/sql; the race detector's bounded history; the serial run as the reference for 'same result as when it runs alone'.",
   tech="deterministic simulation: seeded baton scheduler over real goroutines + race detector + serial-run differential"),
 "C18": dict(cat="exploration", ref="DESIGN.md section 7, C18",
-  text="Seeded write, read (preload, joins, batches, rows, count, pluck) and association-mode operations started from WithContext/Session{Context} with a uniquely tagged context, at transaction nesting 0..3, PrepareStmt on/off, ConnPool shim on/off, cold/warm, optionally after sibling handles bound to another (cancelled) context were derived from the operation's handle: the tag is checked on every ConnPool call and every context-carrying driver call while the run proceeds; the operation is re-run with the context cancelled beforehand (no statement may reach the driver, the context error is returned) and with the context cancelled just before pool call k for every k (no later statement may reach the driver, an error is returned, nothing leaks).",
+  text="Seeded write, read (preload, joins, batches, rows, count, pluck) and association-mode operations started from WithContext/Session{Context} with a uniquely tagged context, at transaction nesting 0..3, PrepareStmt on/off, ConnPool shim on/off, cold/warm, optionally after sibling handles bound to another (cancelled) context were derived from the operation's handle: the tag is checked on every ConnPool call and every context-carrying driver call while the run proceeds; the operation is re-run with the context cancelled beforehand (no statement may reach the driver, the context error is returned) and with the context cancelled just before pool call k for every k (no later statement may reach the driver, an error is returned, nothing leaks). The caller's context may also carry a far deadline, and the operation may run on tx.WithContext(ctx) of a transaction begun under another context.",
   note="Trusted: the tag is a context value (child contexts are fine); Commit/Rollback/Close carry no context; cancellation is injected between pool calls only; database/sql's own context handling.",
   tech="deterministic simulation: context-tag invariant at the pool and driver seams + cancellation injected at every pool call index"),
 "C13": dict(cat="fault_enumeration", ref="DESIGN.md section 7, C13",
-  text="Seeded create/save/update/delete/query operations over record graphs (trees, records shared by several parents with or without a key, children pointing back at their parent) with recording hooks on every model run on the real stack, fault-free (exactly-once and order per in-memory record, statement between before- and after-hooks, all hooks on the operation's own transaction, hook-set values stored, marker rows written through the hook's tx, silence under SkipHooks/UpdateColumn, AfterFind once per delivered row) and once per hook invocation with that invocation failing (error returned, nothing of a later phase runs, database unchanged, no leak). Sampled over operations, exhaustive over hook invocations per operation in the thorough tier.",
+  text="Seeded create/save/update/delete/query operations over record graphs (trees, records shared by several parents with or without a key, children pointing back at their parent) with recording hooks on every model run on the real stack, fault-free (exactly-once and order per in-memory record, statement between before- and after-hooks, all hooks on the operation's own transaction, hook-set values stored, marker rows written through the hook's tx, silence under SkipHooks/UpdateColumn, AfterFind once per delivered row) and once per hook invocation with that invocation failing (error returned, nothing of a later phase runs, database unchanged, no leak). Sampled over operations, exhaustive over hook invocations per operation in the thorough tier. Also per write case: the operation's BEGIN failing (no hook may fire afterwards); models define hook subsets that separate every ordered pair of hook kinds; shared in-memory records at argument level; reads with key-less projections.",
   note="Trusted: record identity = address the hook receives; AfterFind accounting uses rows delivered by the driver; records sharing a key with another record of the same value are exempt from the must-be-visited rule (gorm saves one of them, which one is unspecified).",
   tech="deterministic simulation: hook-invocation fault enumeration with event-log oracle"),
 "C04": dict(cat="fault_enumeration", ref="DESIGN.md section 7, C04",
-  text="Seeded trees of Transaction blocks (and manual Begin/SavePoint/RollbackTo/Commit scripts) run in lock-step with a snapshot-stack reference model on the real gorm/database/sql/SQLite stack, fault-free and once per driver call (BEGIN, SAVEPOINT, ROLLBACK TO, statements, COMMIT, Prepare) with that call failing, and once per call into the connection pool with the caller's context cancelled just before it (nothing durable, an error reported); thorough adds fault pairs; a share of the programs starts from a handle that already carries an error. Checks durable table contents, read-backs inside blocks, identity of propagated errors/panics, usability of the enclosing transaction and leaked connections. Sampled over programs, exhaustive over single fault sites per program in the thorough tier.",
+  text="Seeded trees of Transaction blocks (and manual Begin/SavePoint/RollbackTo/Commit scripts) run in lock-step with a snapshot-stack reference model on the real gorm/database/sql/SQLite stack, fault-free and once per driver call (BEGIN, SAVEPOINT, ROLLBACK TO, statements, COMMIT, Prepare) with that call failing, and once per call into the connection pool with the caller's context cancelled just before it (nothing durable, an error reported); thorough adds fault pairs; a share of the programs starts from a handle that already carries an error. Checks durable table contents, read-backs inside blocks, identity of propagated errors/panics, usability of the enclosing transaction and leaked connections. Sampled over programs, exhaustive over single fault sites per program in the thorough tier. Blocks may contain batched creates (CreateInBatches as a unit of its own) whose failure the block handles; the ConnPool shim can hand out its transaction by value or refuse a Commit before delegating; an operation that never returns (a lock never released) is reported as a deadlock by a real-time watchdog.",
   note="Trusted: SQLite savepoint semantics as the reference for what a scope undoes; the dialector shim that reports SAVEPOINT/ROLLBACK TO errors; the narrow relaxations listed in DESIGN.md (refused ROLLBACK TO, lost COMMIT acknowledgement).",
   tech="deterministic simulation: driver fault enumeration over transaction-block programs vs snapshot-stack reference model"),
 "C05": dict(cat="fault_enumeration", ref="DESIGN.md section 7, C05",
-  text="Every write operation of a seeded sample of record graphs is run once per fault site (every driver call, result row and hook invocation of its fault-free run, and cancellation of the operation's context before every call into the connection pool; injected errors are plain or wrap a well-known error such as context.DeadlineExceeded or sql.ErrTxDone) on the real gorm/database/sql/SQLite stack; the database dump, the returned Error and leaked transactions/connections are checked after each. Exhaustive per case in the thorough tier, sampled over cases; a clean batch is evidence, not proof.",
+  text="Every write operation of a seeded sample of record graphs is run once per fault site (every driver call, result row and hook invocation of its fault-free run, and cancellation of the operation's context before every call into the connection pool; injected errors are plain or wrap a well-known error such as context.DeadlineExceeded or sql.ErrTxDone) on the real gorm/database/sql/SQLite stack; the database dump, the returned Error and leaked transactions/connections are checked after each. Exhaustive per case in the thorough tier, sampled over cases; a clean batch is evidence, not proof. A returned error that is not a join of several must let errors.As find the injected error; an operation that never returns is reported as a deadlock.",
   note="Trusted: SQLite transaction semantics, the driver shim's fault model (errors instead of or after execution, ErrBadConn only instead of execution), the dump side channel. One fault per run.",
   tech="deterministic simulation: per-site driver/hook fault enumeration with before/after dump oracle"),
 }
